@@ -429,6 +429,7 @@ Qed.
 Lemma st_writelen c : J c -> st c = WriteLenBytesToEnd -> post (step flags in_buf in_len omax mask c).
 Proof.
   intros HJ E. unfold step. rewrite E.
+  destruct (dist_check flags c); [jfin|].
   destruct (bytes_left omax c) as [left| |] eqn:El; cbn [bind]; try exact I.
   destruct (bytes_left_spec _ _ El HJ) as [L1 L2].
   destruct (0 <? left) eqn:E0.
